@@ -16,6 +16,91 @@ Proof. intro H. induction l as [|x l IH]; simpl; [reflexivity|]. rewrite H, IH. 
 Lemma filter_app' {A} (p : A -> bool) l1 l2 : filter p (l1 ++ l2) = filter p l1 ++ filter p l2.
 Proof. induction l1 as [|x l1 IH]; simpl; [reflexivity|]. destruct (p x); simpl; rewrite IH; reflexivity. Qed.
 
+Lemma xml_ind' (P : xml -> Prop) :
+  (forall t a tx c, Forall P c -> P (Elem t a tx c)) -> forall e, P e.
+Proof.
+  intro H. fix IH 1. intros [t a tx c]. apply H.
+  induction c as [|x c IHc]; constructor; [apply IH | exact IHc].
+Qed.
+
+(* ---------------- the text layer is the identity on clean trees ---------------- *)
+Fixpoint xml_clean (e : xml) : bool :=
+  match e with
+  | Elem t a tx c =>
+      str_chars_ok t && forallb (fun kv => str_chars_ok (fst kv) && str_chars_ok (snd kv)) a &&
+      match tx with Some s => text_safe s | None => true end &&
+      match c with [] => true | _ => match tx with None => true | Some _ => false end end &&
+      forallb xml_clean c
+  end.
+
+Lemma xml_char_facts c : xml_char c = true -> surrogate c = false /\ N.eqb poison c = false.
+Proof.
+  unfold xml_char, surrogate, poison. intro H.
+  repeat rewrite orb_true_iff in H. repeat rewrite andb_true_iff in H. rewrite ?N.eqb_eq, ?N.leb_le in H.
+  split.
+  - apply andb_false_iff. destruct (N.leb_spec 55296 c); [right; apply N.leb_gt; lia | left; reflexivity].
+  - apply N.eqb_neq. lia.
+Qed.
+Lemma chars_ok_facts s : str_chars_ok s = true -> str_has_surrogate s = false /\ str_poisoned s = false.
+Proof.
+  unfold str_chars_ok, str_has_surrogate, str_poisoned. induction s as [|c s IH]; cbn [forallb existsb]; [auto|].
+  intro H. apply andb_true_iff in H as [H1 H2]. destruct (xml_char_facts c H1) as [A B]. destruct (IH H2) as [C D].
+  rewrite A, B, C, D. auto.
+Qed.
+Lemma norm_eol_id s : existsb (N.eqb 13) s = false -> norm_eol s = s.
+Proof.
+  induction s as [|c s IH]; [reflexivity|]. cbn [existsb]. intro H. apply orb_false_iff in H as [H1 H2].
+  rewrite N.eqb_sym in H1. cbn [norm_eol]. rewrite H1. rewrite IH by exact H2. reflexivity.
+Qed.
+Lemma text_safe_norm s : text_safe s = true -> norm_text (Some s) = Some s /\ str_chars_ok s = true.
+Proof.
+  unfold text_safe. intro H. apply andb_true_iff in H as [H H3]. apply andb_true_iff in H as [H1 H2].
+  apply negb_true_iff in H3. split; [|exact H2].
+  destruct s as [|c s]; [discriminate|]. unfold norm_text. rewrite norm_eol_id by exact H3. reflexivity.
+Qed.
+
+Lemma mapM_id_forall {A} (f : A -> res A) l : Forall (fun x => f x = Ok x) l -> mapM f l = Ok l.
+Proof. intro H. apply mapM_id_in. rewrite Forall_forall in H. exact H. Qed.
+
+Lemma clean_norm e : xml_clean e = true -> xml_norm e = Ok e.
+Proof.
+  induction e as [t a tx c IH] using xml_ind'. cbn [xml_clean xml_norm]. intro H.
+  repeat (apply andb_true_iff in H; destruct H as [H ?]).
+  assert (Ha : forallb (fun kv : str * str => str_chars_ok (snd kv)) a = true).
+  { eapply forallb_impl; [|eassumption]. intros x _ Hx. apply andb_true_iff in Hx. tauto. }
+  rewrite Ha.
+  assert (Ht : text_chars_ok tx = true /\ (match c with [] => norm_text tx | _ => None end) = tx).
+  { destruct tx as [s|]; cbn [text_chars_ok]; [|destruct c; auto].
+    destruct (text_safe_norm s) as [A B]; [assumption|]. destruct c; [auto | discriminate]. }
+  destruct Ht as [Ht1 Ht2]. rewrite Ht1, Ht2. cbn [andb].
+  match goal with |- bind ?m _ = _ => assert (Hm : m = Ok c) end.
+  { clear - IH H0. induction c as [|x c IHc]; [reflexivity|]. cbn [forallb] in H0. apply andb_true_iff in H0 as [Hx Hc].
+    inversion IH; subst. rewrite H1 by exact Hx. cbn [bind]. rewrite IHc by assumption. reflexivity. }
+  rewrite Hm. reflexivity.
+Qed.
+
+Lemma clean_not_poisoned e : xml_clean e = true -> xml_poisoned e = false /\ xml_has_surrogate e = false.
+Proof.
+  induction e as [t a tx c IH] using xml_ind'. cbn [xml_clean xml_poisoned xml_has_surrogate]. intro H.
+  repeat (apply andb_true_iff in H; destruct H as [H ?]).
+  assert (A1 : existsb (fun kv : str * str => str_poisoned (snd kv)) a = false /\
+               existsb (fun kv : str * str => str_has_surrogate (fst kv) || str_has_surrogate (snd kv)) a = false).
+  { clear - H3. induction a as [|[k v] a IHa]; [auto|]. cbn [forallb existsb fst snd] in *.
+    apply andb_true_iff in H3 as [Hkv Ha]. apply andb_true_iff in Hkv as [Hk Hv].
+    destruct (chars_ok_facts k Hk) as [K1 K2]. destruct (chars_ok_facts v Hv) as [V1 V2]. destruct (IHa Ha) as [I1 I2].
+    rewrite K1, V1, V2, I1, I2. auto. }
+  destruct A1 as [A1 A2].
+  assert (A3 : match tx with Some s => str_poisoned s | None => false end = false /\
+               match tx with Some s => str_has_surrogate s | None => false end = false).
+  { destruct tx as [s|]; [|auto]. destruct (text_safe_norm s) as [_ B]; [assumption|]. destruct (chars_ok_facts s B). auto. }
+  destruct A3 as [A3 A4].
+  assert (A5 : existsb xml_poisoned c = false /\ existsb xml_has_surrogate c = false).
+  { clear - IH H0. induction c as [|x c IHc]; [auto|]. cbn [forallb existsb] in *. apply andb_true_iff in H0 as [Hx Hc].
+    inversion IH; subst. destruct (H1 Hx) as [P1 P2]. destruct (IHc H2 Hc) as [Q1 Q2]. rewrite P1, P2, Q1, Q2. auto. }
+  destruct A5 as [A5 A6]. destruct (chars_ok_facts t H) as [T1 _].
+  rewrite A1, A2, A3, A4, A5, A6, T1. auto.
+Qed.
+
 Section XmlRoundTrip.
 Variable tc : textcodec.
 Hypothesis Hc : codec_ok tc.
@@ -201,5 +286,131 @@ Proof.
   all: destruct en as [en|].
   all: match goal with |- context [filter _ ?c] => set (C := c) end; filt_all C; subst C.
   all: xsimp; xrw.
-Abort.
+  all: destruct Hc as [_ Hi]; rewrite Hi; cbn [of_option bind].
+  all: unfold xattr, xhas_attr, xattr_opt, has_key; cbn [xattrs];
+       rewrite ?Hs2, ?Hs3, ?Hs4, ?Hs5, ?Hs6, ?Ht2, ?Ht3, ?Ht4, ?Ht5, ?Ht6.
+  all: try destruct s2; try destruct t2; xsimp; xrw.
+  all: rewrite ?Hs6, ?Ht6; cbn [bind].
+  all: rewrite mapM_map_id by (intros [? ?]; reflexivity); cbn [bind].
+  all: rewrite Hsu; cbn [bind]; reflexivity.
+Qed.
+
+(* ---------------- the trees written for xml_safe reports are clean ---------------- *)
+Hypothesis Hx : codec_xml_ok tc.
+
+Lemma time_chars o : is_some o = true -> str_chars_ok (xml_save_time tc o) = true.
+Proof. destruct o; [|discriminate]. intros _. apply (proj1 Hx). Qed.
+
+Ltac csimp := cbn -[str_chars_ok text_safe attr_safe oattr_safe xml_save_time xml_save_bool xml_save_steps_children
+                    xml_save_test xml_save_suite map].
+Ltac leaf :=
+  first [ assumption | reflexivity | apply time_chars; first [assumption | reflexivity] | apply (proj2 Hx)
+        | match goal with |- str_chars_ok (xml_save_bool ?b) = true => destruct b; reflexivity end ].
+Ltac conj := repeat match goal with |- (_ && _)%bool = true => apply andb_true_intro; split end.
+
+Definition attrs_ok (a : list (str * str)) : bool := forallb (fun kv => str_chars_ok (fst kv) && str_chars_ok (snd kv)) a.
+Lemma clean_elem_none t a c :
+  str_chars_ok t = true -> attrs_ok a = true -> forallb xml_clean c = true -> xml_clean (Elem t a None c) = true.
+Proof. intros H1 H2 H3. cbn [xml_clean]. fold (attrs_ok a). rewrite H1, H2, H3. destruct c; reflexivity. Qed.
+Lemma clean_leaf t a s :
+  str_chars_ok t = true -> attrs_ok a = true -> text_safe s = true -> xml_clean (Elem t a (Some s) []) = true.
+Proof. intros H1 H2 H3. cbn [xml_clean]. fold (attrs_ok a). rewrite H1, H2, H3. reflexivity. Qed.
+Lemma attrs_ok_app a b : attrs_ok (a ++ b) = attrs_ok a && attrs_ok b.
+Proof. apply forallb_app. Qed.
+
+Ltac attrs_tac := unfold attrs_ok; csimp; conj; leaf.
+Ltac elem_tac :=
+  first [ apply clean_leaf; [reflexivity | attrs_tac | assumption]
+        | apply clean_elem_none; [reflexivity | attrs_tac | ] ].
+
+Lemma steps_clean steps : forallb step_safe steps = true -> forallb xml_clean (xml_save_steps_children tc steps) = true.
+Proof.
+  unfold xml_save_steps_children. rewrite forallb_map. apply forallb_impl. intros [d st en logs] _ H.
+  unfold step_safe in H. cbn [st_description st_start st_logs] in H. split_and.
+  cbn [st_description st_start st_end st_logs].
+  apply clean_elem_none; [reflexivity | destruct en; attrs_tac |].
+  rewrite forallb_map. eapply forallb_impl; [|eassumption].
+  intros [lv m t|ds ok dt t|ds f im t|ds u t] _ Hl; unfold log_safe in Hl; split_and.
+  1,3,4: elem_tac.
+  destruct dt as [dt|]; [cbn [otext_safe] in *; elem_tac | elem_tac; reflexivity].
+Qed.
+
+Lemma result_clean r : result_safe r = true ->
+  attrs_ok (xml_save_result_attrs tc r) = true /\ forallb xml_clean (xml_save_result_children tc r) = true.
+Proof.
+  destruct r as [st en s sd steps]. unfold result_safe. cbn [r_start r_end r_status r_status_details r_steps].
+  intro H. split_and. split.
+  - unfold xml_save_result_attrs. cbn [r_start r_end r_status r_status_details].
+    destruct s as [[|c1 s]|]; try discriminate; destruct sd as [[|c2 sd]|]; try discriminate; destruct en;
+      cbn [oattr_safe] in *; split_and; attrs_tac.
+  - unfold xml_save_result_children. cbn [r_steps]. apply steps_clean. assumption.
+Qed.
+
+Lemma meta_clean m : meta_safe m = true ->
+  attrs_ok (xml_save_node_metadata_attrs m) = true /\ forallb xml_clean (xml_save_node_metadata_children m) = true.
+Proof.
+  destruct m as [n d tg pr lk]. unfold meta_safe. cbn [m_name m_description m_tags m_properties m_links].
+  intro H. split_and. split.
+  - unfold xml_save_node_metadata_attrs. attrs_tac.
+  - unfold xml_save_node_metadata_children. cbn [m_tags m_properties m_links].
+    rewrite !forallb_app, !forallb_map. conj.
+    + eapply forallb_impl; [|eassumption]. intros x _ Hs. elem_tac.
+    + eapply forallb_impl; [|eassumption]. intros [k v] _ Hs. cbn [fst snd] in *. split_and. elem_tac.
+    + eapply forallb_impl; [|eassumption]. intros [u [[|c o]|]] _ Hs; cbn [fst snd oattr_safe] in *; split_and;
+        try discriminate; elem_tac.
+Qed.
+
+Lemma test_clean t : test_safe t = true -> xml_clean (xml_save_test tc t) = true.
+Proof.
+  destruct t as [m r]. unfold test_safe. cbn [t_meta t_result]. intro H. split_and.
+  destruct (meta_clean m) as [M1 M2]; [assumption|]. destruct (result_clean r) as [R1 R2]; [assumption|].
+  unfold xml_save_test. cbn [t_meta t_result].
+  apply clean_elem_none; [reflexivity | rewrite attrs_ok_app, M1, R1; reflexivity | rewrite forallb_app, M2, R2; reflexivity].
+Qed.
+
+Lemma oresult_clean K o : str_chars_ok K = true -> oresult_safe o = true ->
+  forallb xml_clean (match o with Some r => [Elem K (xml_save_result_attrs tc r) None (xml_save_result_children tc r)] | None => [] end) = true.
+Proof.
+  intros HK H. destruct o as [r|]; [|reflexivity]. cbn [oresult_safe] in H. destruct (result_clean r H) as [R1 R2].
+  cbn [forallb]. rewrite clean_elem_none by assumption. reflexivity.
+Qed.
+
+Lemma suite_clean s : suite_safe s = true -> xml_clean (xml_save_suite tc s) = true.
+Proof.
+  induction s as [m st en su td tests subs IH] using suite_ind'. cbn [suite_safe]. intro H. split_and.
+  destruct (meta_clean m) as [M1 M2]; [assumption|].
+  cbn [xml_save_suite]. apply clean_elem_none; [reflexivity | |].
+  - rewrite !attrs_ok_app, M1. destruct en; attrs_tac.
+  - rewrite !forallb_app, M2, !forallb_map. rewrite !oresult_clean by (reflexivity || assumption). conj; try reflexivity.
+    + eapply forallb_impl; [|eassumption]. intros x _ Hs. apply test_clean. exact Hs.
+    + rewrite Forall_forall in IH. eapply forallb_impl; [|eassumption]. intros x Hin Hs. apply IH; assumption.
+Qed.
+
+Lemma report_clean now r : xml_safeb r = true -> xml_clean (xml_save_report tc now r) = true.
+Proof.
+  destruct r as [title info st en sav nb su td suites]. unfold xml_safeb.
+  cbn [rp_suites rp_title rp_info rp_start rp_session_setup rp_session_teardown]. intro H. split_and.
+  unfold xml_save_report. cbn [rp_suites rp_title rp_info rp_start rp_end rp_nb_threads rp_session_setup rp_session_teardown].
+  apply clean_elem_none; [reflexivity | destruct en; attrs_tac |].
+  rewrite !forallb_app, !forallb_map. rewrite !oresult_clean by (reflexivity || assumption). conj; try reflexivity.
+  - cbn [forallb]. rewrite clean_leaf by (reflexivity || assumption). reflexivity.
+  - eapply forallb_impl; [|eassumption]. intros [k v] _ Hs. cbn [fst snd] in *. split_and. elem_tac.
+  - eapply forallb_impl; [|eassumption]. intros x _ Hs. apply suite_clean. exact Hs.
+Qed.
+
+(* file level: save with the XML backend, load through reporting.loader *)
+Theorem xml_file_rt now r : xml_safeb r = true -> unique_keys r ->
+  save_then_load tc BXml now r = Ok (with_saving (Some now) r).
+Proof.
+  intros Hs Hu. pose proof (report_clean now r Hs) as Cl.
+  destruct (clean_not_poisoned _ Cl) as [P1 P2].
+  unfold save_then_load, backend_save, xml_save_file. rewrite P1, P2. cbn [bind].
+  unfold default_backends, loader_load, backend_load, xml_load_file. rewrite (clean_norm _ Cl). cbn [bind].
+  unfold xml_save_report at 1 2. unfold xattr. cbn [xtag xattrs].
+  change (str_eqb K_lemoncheesecake__report K_lemoncheesecake__report) with true. cbn [negb].
+  match goal with |- context [assoc K_report__version ?l] => change (assoc K_report__version l) with (Some K_1u2e1) end.
+  cbn [of_option bind]. change (parse_version K_1u2e1) with (Some (11, 1)%Z).
+  change ((2 * 10 ^ 1 <=? 11)%Z) with false. cbn iota.
+  rewrite xml_report_rt by assumption. reflexivity.
+Qed.
 End XmlRoundTrip.
